@@ -40,13 +40,13 @@ RULE = ("next: lists of 1-3 specifications generated from the documented grammar
 ASSUMPTIONS = [
     "croniter.get_next, astral sunrise/sunset and the zone offset (dt_util.as_local) are parameters of the model (cronNext, sun, "
     "utcOff); the oracle uses an independent crontab matcher (minute scan), astral directly and zoneinfo",
-    "IEEE-754 double arithmetic of period(): the parameter fdiv; theorems assume the exact floor (ExactDiv), the driver recomputes "
-    "it with the same double operations as CPython",
+    "period() ticks are exact timedelta arithmetic since fix c80f3bb (model: exact integer division, TFlags.current); the float "
+    "quotient of the earlier code survives only as TFlags.preFix for the regression theorem",
     "string tokenisation (regular expressions) is covered by correspondence only; locale weekday names are the C/English ones",
     "asyncio timers fire no earlier than requested; Home Assistant start/stop events as delivered by the test instance",
 ]
 TRUSTED = ["tools/extractors/C06.py (unit table of parse_time_offset)", "harness/run_C06.py, harness/run_C07.py (spec AST renderer, "
-           "datetime oracle)", "harness/ha_env.py, harness/vclock.py", "modelled not verified: croniter, astral, zoneinfo, IEEE doubles"]
+           "datetime oracle)", "harness/ha_env.py, harness/vclock.py", "modelled not verified: croniter, astral, zoneinfo"]
 
 LA = zoneinfo.ZoneInfo("America/Los_Angeles")
 DAY = dt.timedelta(days=1)
@@ -425,7 +425,8 @@ def gen_parse(rng, n):
 
 
 def corpus_cases():
-    """the witnesses of the known findings, always run"""
+    """the witnesses of the findings, always run (C06-F1, the float floor of period(), is fixed by c80f3bb: its witnesses now
+    must give the exact answers - regression cases; F2a-d, F3 are open)"""
     D = dt.datetime
     out = []
 
@@ -819,7 +820,7 @@ def classify(c, reason):
                         start = oracle_dt(s["s"], tq, st, doff)[0]
                         el = us_of(tq) - us_of(start)
                         if per > 0 and el >= 0 and math.floor((el / 1000000) / pf) != el // per:
-                            return "period:float-floor"
+                            return "period:regressed:float-floor"      # fixed by c80f3bb: matches no known finding
             except (ValueError, OverflowError):
                 pass
             if requery:
